@@ -227,7 +227,16 @@ CLAIMS = {
          "(tuple, nested tuple, struct literal, constructor application; let and match; every mix of named and `_` components, an effect under "
          "every component) at function level, in loop bodies, in arms and as last statement, and put `go` first / middle / last in while bodies, "
          "branches and arms inside them, nested loops, closure bodies and function bodies, followed by effects and the loop-counter update; a stage "
-         "that runs out of (small) fuel while the reference stage finishes is reported as does-not-terminate.",
+         "that runs out of (small) fuel while the reference stage finishes is reported as does-not-terminate. "
+         "Named operands (harness/src/c09/fields.rs): struct literals written in EVERY permutation of 2, 3 and 4 fields (identity included; goml has "
+         "no other named-operand form) in 13 places - let value, call argument between two effectful arguments, projected directly, generic "
+         "struct, fields of four types, an initialiser that is itself a permuted literal, two literals in one expression, closure body run twice, "
+         "loop body, selected / unselected arm, if condition, right-hand side of a destructuring let whose struct PATTERN is written in another "
+         "permutation with `_` components, scrutinee of a match whose arms test and bind the fields in other permutations - under effect plans "
+         "(print / print in a branch block / Ref update in every initialiser; each kind of failing operation in an initialiser among prints and "
+         "among Ref updates; one initialiser that READS the Ref the others update), with the ten wrapper shapes around every initialiser and with "
+         "random compound initialisers; expected trace = initialisers in WRITTEN order, field values by NAME (quick: all 32 orders for the plain "
+         "literal, 14 per other place, holes / kinds rotating with the seed; thorough: the full product).",
     design_ref="§5 C09, §C09 — as built",
     note="Proved: the theorems above, about Model/Anf.lean and Sem. Caveat in the theorems: a source run that goes wrong (Fail.stuck = ill-typed IR) "
          "is only required to be matched by some outcome (ANF names all operands before the operation, so it notices an ill-typed operand later); "
